@@ -189,6 +189,17 @@ def run(R, tier):
                     f_(*mk2())
                 except Exception:  # noqa
                     pass
+            # a registered function with a plain-number argument, called with several different values: one trace
+            traced['blend'] = 0
+            def blend(a, b, t):
+                traced['blend'] += 1
+                return a * t + b * (1 - t)
+            blend_r = alg.register(blend)
+            for tval in (0.5, 0.25, 2, 3.0, 0.125):
+                try:
+                    blend_r(*mk2(), tval)
+                except Exception:  # noqa
+                    pass
             R.count('registered=nested'); R.case(('nested-registered', ai), True)
             if any(v > 1 for v in traced.values()):
                 R.violation({'clause': 'regenerated', 'coeff': 'registered'},
